@@ -2,12 +2,8 @@ SPECIFICATION Spec
 CONSTANT Ops = 5
 CONSTANT MaxD = 2
 CONSTANT MaxPause = 1
-CONSTANT Fixed = FALSE
-CONSTANT Against = "abs"
+CONSTANT Modes <- ModesCodedAbs
 CONSTANT Plain <- PlainTiny
 VIEW View
 INVARIANT RefinesObs
-INVARIANT DepthOne
-INVARIANT ChainBounded
-INVARIANT ITypeOK
 CHECK_DEADLOCK FALSE
